@@ -193,6 +193,51 @@ fn op_demux(cfg: &str, pushes: &[Vec<u8>]) -> String {
     run_demux(&cfg, pushes).join(" ")
 }
 
+/// bit `j` of the hexadecimal number `mask` (least significant bit = bit 0)
+fn mask_bit(mask: &str, j: usize) -> bool {
+    let b = mask.as_bytes();
+    let n = j / 4;
+    if n >= b.len() {
+        return false;
+    }
+    let c = b[b.len() - 1 - n];
+    let v = match c {
+        b'0'..=b'9' => c - b'0',
+        b'a'..=b'f' => c - b'a' + 10,
+        _ => 0,
+    };
+    (v >> (j % 4)) & 1 == 1
+}
+
+/// split a packet-aligned stream after packet j for every set bit j of the mask
+pub fn split_by_mask(stream: &[u8], mask: &str) -> Vec<Vec<u8>> {
+    let n = stream.len() / 188;
+    let mut pushes = vec![];
+    let mut start = 0;
+    for j in 0..n {
+        if j + 1 < n && mask_bit(mask, j) {
+            pushes.push(stream[start..(j + 1) * 188].to_vec());
+            start = (j + 1) * 188;
+        }
+    }
+    pushes.push(stream[start..].to_vec());
+    pushes
+}
+
+fn op_cuts(cfg: &str, stream: &[u8], masks: &str) -> String {
+    let cfg = match app::parse_cfg(cfg) {
+        Some(c) => c,
+        None => return "bad-op".into(),
+    };
+    let whole = run_demux(&cfg, &[stream.to_vec()]).join(" ");
+    let mut out = vec![];
+    for m in masks.split(',') {
+        let t = run_demux(&cfg, &split_by_mask(stream, m)).join(" ");
+        out.push(if t == whole { "same" } else { "diff" });
+    }
+    out.join(",")
+}
+
 fn step(rest: &str) -> String {
     let mut it = rest.split(' ');
     let op = it.next().unwrap_or("");
@@ -224,6 +269,7 @@ fn step(rest: &str) -> String {
             let pk: Vec<Vec<u8>> = args.iter().map(|h| unhex(h)).collect();
             op_pesf(&pk)
         }
+        ("cuts", 3) => op_cuts(args[0], &unhex(args[1]), args[2]),
         ("demux", n) if n >= 1 => {
             let pk: Vec<Vec<u8>> = args[1..].iter().map(|h| unhex(h)).collect();
             op_demux(args[0], &pk)
